@@ -38,7 +38,7 @@ CHECKS = {
     "C14": ("versionrouting", "TLA+ spec of version detection and the routing rule; TLC enumerates the complete (version argument x content shape x id class x allow_custom) matrix; every cell replayed through every entry point and validated by the trace spec",
             "The rule 'outcome = direct parse with the named, else detected, version; identifiers a version does not admit are never accepted' is checked by TLC on the full matrix and the "
             "matrix is replayed completely through 15 public entry points in every input form (dict, JSON text, lists, bundles, planted files), plus a sweep of every versionable built-in type x "
-            "identifier class on id and reference properties. The space is finite and covered completely at the abstraction chosen.",
+            "identifier class on id and reference properties. The space is finite and covered completely at the abstraction chosen. Absolute clauses besides the relative ones: identifiers a version does not admit and references to a type only the other version has are never accepted strictly, through parse, memory and filesystem entry points; wrappers in the other version's style and member-less bundles are part of the matrix.",
             "Trusted: the direct parse measured on the same content is the routing reference; identifier acceptance per version is frozen in the spec; MemorySink() read through _data.",
             "DESIGN.md §3.8"),
     "C19": ("registry", "TLA+ state machine of the per-version, per-category registries; TLC exhaustive over registration histories with action properties; TLC-generated behaviours replayed on the real registries; trace validation of random histories and a naming sweep",
@@ -50,7 +50,7 @@ CHECKS = {
     "C07": ("markings", "TLA+ set-algebra model of granular/object markings; TLC proves the algebraic laws over all states and explores the operation machine; TLC-simulated behaviours replayed on real objects; trace validation of random histories",
             "TLC checks the laws (add reported/idempotent/commutative, remove restores, clear leaves others, set = clear;add, queries agree, ancestry by path steps) as theorems over every G,O "
             "of the model universe and the version discipline on the state machine. Simulated behaviours (mutators and queries with all flag combinations) are replayed through functions and "
-            "methods on SDO/SRO objects of both versions and dicts realising the hazard selectors, and random histories on every SDO/SRO type are validated line by line.",
+            "methods on SDO/SRO objects of both versions and dicts realising the hazard selectors, and random histories on every SDO/SRO type are validated line by line. MarkingsLayout.tla states and TLC checks the abstraction from entry lists to pair sets and the layout independence of the mutators (negative config: first-match removal); the drivers re-lay the concrete list between steps (exploded / overlapping / repeated / shuffled), start from content that arrives marked, and branch from earlier objects.",
             "Trusted: projection of granular_markings to pairs; 'no change' outcomes (object returned / MarkingNotFoundError) are not distinguished; multi-marking is_marked not generated.",
             "DESIGN.md §3.4"),
     "C08": ("markings", "TLA+ path enumeration over JSON trees; TLC enumerates every path and near miss of real maximal instances; each candidate replayed through construction, parse and every marking function; trace validation",
@@ -81,14 +81,14 @@ CHECKS = {
             "TLC checks on spec/DetId.tla that re-ordering and non-contributing edits keep the preimage and contributing edits change it, and evaluates View/ChooseHash/Canon for every observable the "
             "harness generates (all 18 built-in 2.1 observable types and a registered custom observable, random subsets of contributing and non-contributing properties, falsy values, escapes, "
             "nested extensions with floats, hash dictionaries in every order). The id must equal type--uuid5(namespace, that preimage) via keyword arguments, parsed JSON in shuffled order, "
-            "after a round trip, after non-contributing changes, and across processes; with nothing contributing it must be a fresh UUIDv4.",
+            "after a round trip, after non-contributing changes, and across processes; with nothing contributing it must be a fresh UUIDv4. Histories: other objects of the type are versioned, revoked, copied, serialized and parsed permissively, then the same content must get the same identifier; floats at every RFC 8785 layout boundary, nested multi-entry hash dictionaries and free-form float lists are in the contributing content.",
             "Trusted: SHA-1/UUIDv5 from hashlib/uuid; contributing lists transcribed from the STIX 2.1 text; floats tagged through Python's shortest repr.",
             "DESIGN.md §3.3"),
     "C09": ("patterns", "TLA+ STIX patterning semantics (bindings over bounded observation sequences); TLC proves every documented rewrite sound for all operand choices; trace validation of the implementation's verdicts and normal forms against Sem",
             "TLC checks on spec/PatternSem.tla + MC_PatternLaws.tla that all 24 documented rewrites are sound for every operand choice (1600 instances over 313 observation sequences each) and that "
             "non-laws (observation-level AND idempotence, FOLLOWEDBY commutation, absorption under REPEATS) are distinguished. For generated patterns the library's verdict on (pattern, documented rewrite), "
             "(pattern, near-rewrite), (pattern, sub-expression) and the library's own normal form are judged by TLC evaluating Sem on both sides (soundness, recognition of single documented rewrites), "
-            "plus totality on valid patterns of the whole grammar and reflexivity / symmetry / transitivity / find_equivalent_patterns on batches.",
+            "plus totality on valid patterns of the whole grammar and reflexivity / symmetry / transitivity / find_equivalent_patterns on batches. Constants of every kind on ordinary and special paths are renamed jointly into the vocabulary (the trace spec re-computes the denotation of CIDR blocks and case-insensitive names itself), so soundness is judged there too; an absorption grid, full distribution of alternating patterns and integers around 2^53 are enumerated.",
             "Trusted: the stix2-patterns grammar decides validity; the bounded universe (one type, two integer properties, <=3 observations, 2 instants) limits which inequivalences are visible; normal form read via _get_pattern_normalizer.",
             "DESIGN.md §3.5"),
     "C10": ("patterns", "TLA+ printing/grouping/normal-structure operators on the pattern AST; TLC checks grouping preserves structure and meaning and enumerates ASTs with their token sequences; trace validation of parse/print round trips by structure (Norm) and meaning (Sem)",
@@ -167,7 +167,9 @@ def build():
         "setup_cmd": "./setup.sh",
         "hooks": {
             "guard": "STIX2_VERIF_TRACE",
-            "enable": "no source hooks: the harness wraps public callables from outside; the guard variable is read only by /verif/harness",
+            "enable": "no source hooks in /repo. The only instrumentation is /verif/harness/record_plugin.py, loaded from outside into a run of the repository's own tests "
+                      "(cd /repo && STIX2_VERIF_TRACE=<dir> PYTHONPATH=/verif pytest -p harness.record_plugin ...): it wraps public callables at import time and writes one NDJSON "
+                      "file per trace specification; without the guard variable it does nothing. Stages S3b of C13, C15, C16 and C20 run it.",
             "baseline_off_cmd": "cd /repo && /venv/bin/python -m pytest -ra -q -p no:cacheprovider --timeout=900 --continue-on-collection-errors",
             "source_commits": [],
             "add_only": True,
